@@ -78,6 +78,12 @@ fn main() {
             0
         }
         "selftest" => tools::selftest(),
+        "aliascycle" => {
+            // sim aliascycle <project.json> : verdict of the KF-C04-4 input-feature detector
+            let p: model::Project = serde_json::from_str(&std::fs::read_to_string(&args[2]).unwrap()).unwrap();
+            println!("{:?}", edits::noncontractive_alias_cycle(&p.files));
+            0
+        }
         "synthetic" => {
             // sim synthetic <seed> : print a synthetic project (debugging aid)
             let p = gen::synthetic_project(args[2].parse().unwrap());
